@@ -97,8 +97,7 @@ META = {
     },
     'C03': {
         'text': 'Theorems over the Core reference evaluator, for all parameter lists, argument lists and keyword arguments (plain identifiers): the i-th parameter holds the i-th argument or nil, surplus arguments bind nothing; \\N, \\0, \\ are exactly '
-                'the arguments received; a keyword parameter takes the passed value else its default; \\name and \\_ are the keyword arguments received. Scoping (closure sees the defining scope and its later reassignments, a call writes '
-                'only its own fresh scope, receiver passing, receiver-less chains) is decided by the generated-program differential against the reference evaluator.',
+                'the arguments received; a keyword parameter takes the passed value else its default; \\name and \\_ are the keyword arguments received. Scoping: a footprint theorem proved by simultaneous induction over all 29 functions of the reference evaluator - evaluating in scope env changes no other existing scope, and a call changes NO existing scope at all (its body runs in a scope created for the call, enclosed in the scope where the literal was written; iterators\' own scopes are the stated exception). Receiver passing and receiver-less chains are decided by the generated-program differential.',
         'note': PROOF_NOTE + 'the model is the Core reference evaluator (a transcription of the evaluator for a sub-language); programs reach it through the real parser; built-ins outside the modelled set make a case unsupported. ',
         'technique': 'Lean 4 proof (lookup lemmas over the layered bindings, injectivity of argument-variable names) + generated-program differential against a Lean reference evaluator fed by the real parser',
     },
